@@ -1,7 +1,7 @@
 """C07 registry: microservice patterns (APIGateway, IdempotencyStore, OutboxRelay, Saga, Sidecar)."""
 from __future__ import annotations
 
-from props.c07_core import Backend, Drv, Entity, Event
+from props.c07_core import Backend, Drv, Entity, Event, P, R
 
 from happysimulator.components.microservice import (APIGateway, IdempotencyStore, OutboxRelay, RouteConfig, Saga,
                                                     SagaStep, Sidecar)
@@ -39,8 +39,8 @@ class APIGatewayDrv(Drv):
         self.b2 = _Svc("b2", cfg.L, self.h.out)
         routes = {
             "users": RouteConfig(name="users", backends=[self.b1, self.b2],
-                                 rate_limit_policy=TokenBucketPolicy(capacity=2.0, refill_rate=2.0),
-                                 auth_required=True, timeout=2 * cfg.L + 0.75),
+                                 rate_limit_policy=TokenBucketPolicy(capacity=2.0, refill_rate=R(2.0)),
+                                 auth_required=True, timeout=2 * cfg.L + P(0.75)),
             "open": RouteConfig(name="open", backends=[self.b1], auth_required=False),
         }
         self.gw = APIGateway("gw", routes=routes, auth_latency=cfg.L, auth_failure_rate=0.25)
@@ -61,7 +61,7 @@ class IdempotencyStoreDrv(Drv):
         self.svc = _Svc("svc", cfg.L, self.h.out)
         self.ids = IdempotencyStore("idem", target=self.svc,
                                     key_extractor=lambda e: e.context.get("metadata", {}).get("key"),
-                                    ttl=1.0, max_entries=2, cleanup_interval=0.5)
+                                    ttl=P(1.0), max_entries=2, cleanup_interval=P(0.5))
         return [self.svc, self.ids]
 
     def request(self, i, op):
@@ -77,7 +77,7 @@ class OutboxRelayDrv(Drv):
     ops = ("write", "write_two")
 
     def build(self, cfg):
-        self.ob = OutboxRelay("outbox", downstream=self.h.out, poll_interval=0.5, batch_size=2,
+        self.ob = OutboxRelay("outbox", downstream=self.h.out, poll_interval=P(0.5), batch_size=2,
                               relay_latency=cfg.L)
         self.primed = False
         return [self.ob]
@@ -103,7 +103,7 @@ class SagaDrv(Drv):
         self.inv = _Svc("inventory", cfg.L)
         self.pay = _SagaPay("payments", cfg.L)
         self.ship = _Svc("shipping", cfg.L)
-        t = 2 * cfg.L + 0.75
+        t = 2 * cfg.L + P(0.75)
         steps = [SagaStep("reserve", self.inv, "reserve", self.inv, "unreserve", timeout=t),
                  SagaStep("charge", self.pay, "charge", self.pay, "refund", timeout=t),
                  SagaStep("ship", self.ship, "ship", self.ship, "unship", timeout=t)]
@@ -139,9 +139,9 @@ class SidecarDrv(Drv):
 
     def build(self, cfg):
         self.svc = _Svc("svc", cfg.L, self.h.out)
-        self.sc = Sidecar("sidecar", target=self.svc, rate_limit_policy=TokenBucketPolicy(capacity=2.0, refill_rate=2.0),
-                          circuit_failure_threshold=2, circuit_success_threshold=1, circuit_timeout=1.0,
-                          request_timeout=2 * cfg.L + 0.75, max_retries=1, retry_base_delay=0.25)
+        self.sc = Sidecar("sidecar", target=self.svc, rate_limit_policy=TokenBucketPolicy(capacity=2.0, refill_rate=R(2.0)),
+                          circuit_failure_threshold=2, circuit_success_threshold=1, circuit_timeout=P(1.0),
+                          request_timeout=2 * cfg.L + P(0.75), max_retries=1, retry_base_delay=P(0.25))
         return [self.svc, self.sc]
 
     def request(self, i, op):
@@ -156,7 +156,7 @@ class SidecarBackendOkDrv(Drv):
 
     def build(self, cfg):
         self.svc = Backend("svc", cfg.L, self.h.out)
-        self.sc = Sidecar("sidecar", target=self.svc, request_timeout=1.0, max_retries=0)
+        self.sc = Sidecar("sidecar", target=self.svc, request_timeout=P(1.0), max_retries=0)
         return [self.svc, self.sc]
 
     def request(self, i, op):
